@@ -14,7 +14,7 @@ core.setup_paths()
 PROPERTY = "C18"
 LEVEL = "exploration"
 EXHAUSTIVE = True
-TECHNIQUE = "runtime contracts (icontract post-conditions with OLD snapshots) attached to the real RandomSource primitives of every source implementation and to the deciders' random_int, driven with boundary-biased inputs; derived primitives additionally run under a scripted inner randint that enumerates ALL draws for small inputs (exact selection counts per weight, all permutations, every pop position)"
+TECHNIQUE = "runtime contracts (icontract post-conditions with OLD snapshots) attached to the real RandomSource primitives of every source implementation and to the deciders' random_int, driven with boundary-biased inputs; derived primitives additionally run under a scripted inner randint that enumerates ALL draws for small inputs (exact selection counts per weight, all permutations, every pop position); bounds are compared exactly (ints against floats), pop_random is judged by object identity, weighted choices also with one weight list reused across calls, the deciders' random_int over every width of a band"
 RULE = (
     "cases = (source implementation in {native, GE wrapper, stack wrapper, SGE wrapper, dSGE genotype-backed, scripted}, gene list or seed, "
     "script of primitive calls with boundary bounds / option lists / weight vectors); every call is checked by a post-condition; exhaustive cases "
